@@ -154,14 +154,14 @@ PROBES_S = [
 ]
 
 
-def _replay_emergency(n_farms, owners):
+def _replay_emergency(n_farms, owners, fixed_kinds=None):
     def build(m):
         ch = m['_choices']
         ep, now = m['epoch'], m['now_s']
         exp = m.get('expiring_at') if m.get('is_closed') else None
         farms = []
         for k in range(n_farms):
-            kind = ['active', 'future', 'expired'][ch['farm%d_kind' % k]]
+            kind = fixed_kinds[k] if fixed_kinds else ['active', 'future', 'expired'][ch['farm%d_kind' % k]]
             funded, claimed = m['f%d_funded' % (k + 1)], m['f%d_claimed' % (k + 1)]
             if kind == 'active':
                 start, end = ep - 1, ep + 5
@@ -169,7 +169,7 @@ def _replay_emergency(n_farms, owners):
                 start, end = ep + 1, ep + 5
             else:
                 start, end = 1, 3
-            farms.append(('f%d' % k, owners[k], LP1, 'uusd', funded, claimed, 1, start, end))
+            farms.append((_fid(k, n_farms), owners[k], LP1, 'uusd', funded, claimed, 1, start, end))
         return {'now_s': now, 'positions': [('u-a', LP1, m['amount'], m['duration'], 'alice', exp)], 'farms': farms,
                 'weights': [('farm_manager', LP1, ep, m['total_w']), ('alice', LP1, ep, m['user_w'])],
                 'mints': [('farm_manager', [(LP1, m['fm_lp_balance'])])],
@@ -178,7 +178,11 @@ def _replay_emergency(n_farms, owners):
     return fm_replay(build)
 
 
-def _ob_emergency(n_farms, owners):
+def _fid(k, n):
+    return ('f%d' if n < 10 else 'f%02d') % k
+
+
+def _ob_emergency(n_farms, owners, fixed_kinds=None):
     def s(I):
         I.set_hint(HINT_S)
         I.set_probes(PROBES_S)
@@ -205,7 +209,7 @@ def _ob_emergency(n_farms, owners):
         put_weight(I, 'alice', LP1, ep, I.sym('user_w', hi=U128))
         kinds = []
         for k in range(n_farms):
-            kind = ['active', 'future', 'expired'][I.choose(3, 'farm%d_kind' % k)]
+            kind = fixed_kinds[k] if fixed_kinds else ['active', 'future', 'expired'][I.choose(3, 'farm%d_kind' % k)]
             kinds.append(kind)
             funded = I.sym('f%d_funded' % (k + 1), lo=1, hi=U128)
             claimed = I.sym('f%d_claimed' % (k + 1), hi=U128)
@@ -219,7 +223,7 @@ def _ob_emergency(n_farms, owners):
             else:
                 start, end = 1, 3
                 I.assume(smt.Eq(claimed, funded))       # exhausted farm = expired
-            put_farm(I, farm('f%d' % k, owners[k], LP1, 'uusd', funded, claimed, 1, start, end))
+            put_farm(I, farm(_fid(k, n_farms), owners[k], LP1, 'uusd', funded, claimed, 1, start, end))
         ch = Chain(I, CONTRACTS_FM)
         pre = b.snapshot()
         st, resp = ch.execute('alice', FM, manage_position('Withdraw', identifier='u-a', emergency_unlock=Some(True)), [])
@@ -280,3 +284,15 @@ for _n, _own in ((0, ()), (1, ('carol',)), (2, ('carol', 'dave')), (2, ('carol',
                          '(all to the fee collector when there is none or the share rounds to 0); future/expired farms get nothing; position deleted',
                bounds='amount [1,2^128/17), base penalty [0,100%%], %d farms each active/future/expired, times symbolic' % _n,
                covers=['ok'], tier='quick' if _n < 2 else 'thorough', replay=_replay_emergency(_n, _own))(_ob_emergency(_n, _own))
+
+
+# more farms on the LP token than one default page of the farm listing (10): the active farm is the LAST in identifier order
+_MANY = 12
+_MANY_KINDS = ['future'] * (_MANY - 1) + ['active']
+_MANY_OWNERS = tuple(['carol'] * (_MANY - 1) + ['dave'])
+obligation('C09', 'S2.emergency_withdraw_%d_farms_active_one_last' % _MANY,
+           entries=['execute', 'withdraw_position', 'calculate_emergency_penalty', 'is_farm_expired', 'get_farms_by_lp_denom', 'create_penalty_share_msg'], kind='S',
+           statement='as S1 with %d farms on the LP token, eleven not yet started and the only active one last in identifier order (beyond a default page of the farm '
+                     'listing): its owner still receives the owners share, the owner of the inactive farms nothing' % _MANY,
+           bounds='amount [1,2^128/17), base penalty [0,100%%], %d farms with fixed activity, times symbolic' % _MANY,
+           covers=['ok'], replay=_replay_emergency(_MANY, _MANY_OWNERS, _MANY_KINDS))(_ob_emergency(_MANY, _MANY_OWNERS, _MANY_KINDS))
